@@ -21,8 +21,14 @@ func init() {
 // is analysed: the success state of constructor New<TypeName> when it exists, otherwise a
 // symbolic receiver under the premise that all payload fields together fit a PDU.
 func encoderInstance(c *Ctx, an *Analysis, pkgRel string, tn *types.Named) (recv AV, st DNF, how string, ok bool) {
+	return encoderInstanceOpt(c, an, pkgRel, tn, false)
+}
+
+// encoderInstanceOpt: with anyStruct the constructor is ignored and the receiver is an arbitrary
+// struct value (what a parser or a caller writing the exported fields can produce).
+func encoderInstanceOpt(c *Ctx, an *Analysis, pkgRel string, tn *types.Named, anyStruct bool) (recv AV, st DNF, how string, ok bool) {
 	name := tn.Obj().Name()
-	if ctor := c.fnOpt(pkgRel, "New"+name); ctor != nil && ctor.Signature.Results().Len() >= 1 {
+	if ctor := c.fnOpt(pkgRel, "New"+name); !anyStruct && ctor != nil && ctor.Signature.Results().Len() >= 1 {
 		if p, isP := ctor.Signature.Results().At(0).Type().(*types.Pointer); isP && types.Identical(p.Elem(), tn) {
 			r, s, _, ok := ctorInstance(an, ctor)
 			if ok {
@@ -87,13 +93,17 @@ func bytesMethods(c *Ctx, pkgRel string) []*ssa.Function {
 }
 
 func runEncoder(c *Ctx, pkgRel string, m *ssa.Function, crc *ssa.Function) encRun {
+	return runEncoderOpt(c, pkgRel, m, crc, false)
+}
+
+func runEncoderOpt(c *Ctx, pkgRel string, m *ssa.Function, crc *ssa.Function, anyStruct bool) encRun {
 	tn := m.Signature.Recv().Type().(*types.Named)
 	an := &Analysis{ctx: c, u: newUniverse(), top: m}
 	if crc != nil {
 		an.uninterp = map[*ssa.Function]string{crc: "crc16"}
 	}
 	er := encRun{m: m, tn: tn, an: an}
-	recv, st, how, ok := encoderInstance(c, an, pkgRel, tn)
+	recv, st, how, ok := encoderInstanceOpt(c, an, pkgRel, tn, anyStruct)
 	if !ok {
 		er.why = "constructor not interpretable"
 		return er
@@ -146,6 +156,24 @@ func checkC03(c *Ctx, r *Report) {
 		r.instance("R3.1", 1)
 		r.funcs[id] = true
 		c03Encoder(c, r, er, id)
+		// requests also reach their encoder without the constructor (parsed requests re-encoded,
+		// exported fields rewritten): the CRC must cover buf[0:L-2] for any struct contents
+		if strings.HasPrefix(er.how, "constructor") {
+			er2 := runEncoderOpt(c, "packet", m, crc, true)
+			if !er2.okay {
+				r.undecided("R3.1", id, "RTU encoder not interpretable for arbitrary struct contents: "+er2.why, c.pos(m.Pos()))
+			} else {
+				tmp := newReport(r.Prop, r.Tier)
+				c03Encoder(c, tmp, er2, id)
+				for _, it := range tmp.items {
+					it.What = "(any struct contents) " + it.What
+					if it.Signature != "" {
+						it.Signature = "any:" + it.Signature
+					}
+					r.add(it)
+				}
+			}
+		}
 	}
 	c03Coverage(c, r, crc)
 	// CRC-verifying entry points: every exported function of the package taking a frame that
